@@ -203,6 +203,14 @@ def check(world, tier):
             arms.append(edge)
     e_.ob(len(arms) >= 2, "refusal-has-effect", "no effect-free ERROR arm in download()/upload(): after an ERROR reply the client may still create files or start a worker",
           sample={"ERROR arms without spawn/fs": len(arms)})
+    # the client's own thread creates, truncates or removes nothing: the only file the download touches is created by the
+    # receive worker, which is started after the server's first non-ERROR reply
+    MUT_FS = ("std::fs::File::create", "std::fs::File::create_new", "std::fs::OpenOptions::open", "std::fs::remove_file", "std::fs::write",
+              "std::fs::create_dir", "std::fs::create_dir_all", "std::fs::rename", "std::fs::copy", "std::fs::remove_dir", "std::fs::remove_dir_all")
+    for x in ev:
+        if x.region == "client" and not x.inlined and base_name(x) in MUT_FS:
+            e_.ob(False, "client-thread-touches-files %s in %s" % (base_name(x), short(x.body)),
+                  "the client calls %s on its own thread (before / independently of the server's reply): a refused request leaves or destroys a local file" % base_name(x), x.loc)
     bn = world.bins.get("tftpc.bin")
     if bn is not None:
         prints = 0
